@@ -6,52 +6,150 @@ namespace LinfaSpec.Drv.C01
 open LinfaSpec.Proto LinfaSpec.Fold
 
 /-- tagged dataset shared with the harness: record cell `(id, j)` is `id*p+j`,
-target cell `(id, c)` is `100000 + id*t + c`. -/
+target cell `(id, c)` is `100000 + id*t + c`.  The model works on the LOGICAL rows: the
+request's memory layout (`lr=`/`lt=`), element type (`er=`/`et=`) and storage kind (`own=`)
+do not enter `fold` at all, and enter `iter_fold` only through the standard-layout guard
+(the harness sends non-standard layouts as oracle-only requests). -/
 def recRows (n p : Nat) : List (List Nat) :=
   (List.range n).map fun id => (List.range p).map fun j => id * p + j
 def tgtRows (n t : Nat) : List (List Nat) :=
   (List.range n).map fun id => (List.range t).map fun c => 100000 + id * t + c
+/-- labels of the `fold_counted` requests: `(id² + 3c + id/3) mod 4` -/
+def labRows (n t : Nat) : List (List Nat) :=
+  (List.range n).map fun id => (List.range t).map fun c => (id * id + 3 * c + id / 3) % 4
 
 def showRows (r : List (List Nat)) : String := showList2 toString r
+
+/-- the statement promises the training part as a multiset of (record, target) rows: both sides
+print it in the canonical order (record ids are distinct, so the first cell is a key) -/
+def sortPaired (r t : List (List Nat)) : List (List Nat) × List (List Nat) :=
+  if r.length ≠ t.length then (r, t) else
+  ((r.zip t).mergeSort (fun a b => a.1.headD 0 ≤ b.1.headD 0)).unzip
+
+/-- linear-time split of a flat row-major buffer into rows of `p` cells -/
+def rowsOf (p : Nat) (l : List Nat) : List (List Nat) :=
+  let rec go : Nat → List Nat → Array (List Nat) → List (List Nat)
+    | 0, _, acc => acc.toList
+    | f + 1, l, acc => if l.isEmpty then acc.toList else go f (l.drop p) (acc.push (l.take p))
+  go l.length l #[]
+
+def guardOk (n k : Nat) : Bool := 2 ≤ k && k ≤ n
 
 def handleFold (toks : List String) : Option String := do
   let n ← argNat toks "n"; let k ← argNat toks "k"
   let p ← argNat toks "p"; let t ← argNat toks "t"
+  -- outside the property's guard nothing is promised: exercised by the harness, not compared
+  if !guardOk n k then some "unguarded" else
   match foldPairs k (recRows n p), foldPairs k (tgtRows n t) with
   | some fr, some ft =>
     let parts := (fr.zip ft).map fun ((trR, vaR), (trT, vaT)) =>
-      s!"TR:{showRows trR}/TT:{showRows trT}/VR:{showRows vaR}/VT:{showRows vaT}"
+      let (a, b) := sortPaired trR trT
+      s!"TR:{showRows a}/TT:{showRows b}/VR:{showRows vaR}/VT:{showRows vaT}"
+    some ("ok " ++ " ".intercalate parts)
+  | _, _ => some "panic"
+
+def column (rows : List (List Nat)) (c : Nat) : List Nat := rows.map fun r => r.getD c 0
+
+def handleFoldCounted (toks : List String) : Option String := do
+  let n ← argNat toks "n"; let k ← argNat toks "k"
+  let p ← argNat toks "p"; let t ← argNat toks "t"
+  if !guardOk n k then some "unguarded" else
+  let labs := labRows n t
+  -- `CountedTargets::new_targets`: one recounted map per target column, per part
+  let cols ← (List.range t).mapM fun c => foldCounted k (column labs c)
+  match foldPairs k (recRows n p), foldPairs k labs with
+  | some fr, some ft =>
+    let parts := (List.range k).map fun i =>
+      let (trR, vaR) := fr.getD i ([], [])
+      let (trT, vaT) := ft.getD i ([], [])
+      let cnt := fun (pick : (List Nat × (Nat → Nat)) × (List Nat × (Nat → Nat)) → (Nat → Nat)) =>
+        cols.map fun col => match col[i]? with
+          | some pr => (List.range 4).map (pick pr)
+          | none => []
+      let (a, b) := sortPaired trR trT
+      s!"TR:{showRows a}/TT:{showRows b}/CT:{showRows (cnt (·.1.2))}/VR:{showRows vaR}/VT:{showRows vaT}/CV:{showRows (cnt (·.2.2))}"
     some ("ok " ++ " ".intercalate parts)
   | _, _ => some "panic"
 
 def handleIterFold (toks : List String) : Option String := do
   let n ← argNat toks "n"; let k ← argNat toks "k"
   let p ← argNat toks "p"; let t ← argNat toks "t"
-  match iterFold n k p t (recRows n p).flatten (tgtRows n t).flatten with
+  if !guardOk n k then some "unguarded" else
+  -- compared requests are standard layout (the harness checks `is_standard_layout()` itself)
+  match iterFoldLayout true true n k p t (recRows n p).flatten (tgtRows n t).flatten with
   | none => some "panic"
   | some o =>
     let sh := fun (x : List Nat × List Nat) => s!"{showList toString x.1}/{showList toString x.2}"
-    some (s!"ok trains={" ".intercalate (o.trains.map sh)} valids={" ".intercalate (o.valids.map sh)} " ++
+    let shSorted := fun (x : List Nat × List Nat) =>
+      let (a, b) := sortPaired (rowsOf p x.1) (rowsOf t x.2)
+      sh (a.flatten, b.flatten)
+    some (s!"ok trains={" ".intercalate (o.trains.map shSorted)} valids={" ".intercalate (o.valids.map sh)} " ++
       s!"final={showList toString o.finalR}/{showList toString o.finalT}")
 
-/-- scripted outcome tables: `fit=` list2 `[fold][model]` of codes (0 = ok),
-`ev=` list2 `[fold][model]` of codes (0 = ok), `vals=` list3
-`[fold][model][target]` of integers `q` standing for `q/4`. -/
+local instance : NatCast Float32 := ⟨Float32.ofNat⟩
+
+/-- fold index a mock reads off the training view it is handed (as the harness' mock does):
+smallest record id that is missing, divided by the fold size -/
+def foldOfTrain (n k p : Nat) (trR : List Nat) : Nat :=
+  let present := (rowsOf p trR).foldl (fun (a : Array Bool) r => a.set! (r.headD 0 / p) true)
+    (Array.replicate n false)
+  let missing := (List.range n).find? (fun i => !(present.getD i true)) |>.getD 0
+  min (missing / (n / k)) (k - 1)
+
+/-- scripted cross-validation THROUGH the model's `iter_fold`: the mock parameter sets and the
+mock evaluation look up their scripted outcome by the fold they recognise in the training /
+validation view the model hands them.  `fit=` list2 `[fold][model]` of codes (0 = ok), `ev=`
+likewise, `vals=` list3 `[fold][model][target]` of integers `q` standing for `q/4`. -/
+def runCv {σ} [Add σ] [Div σ] [OfNat σ 0] [NatCast σ] (ofQuarter : Int → σ) (shw : σ → String)
+    (n k p t m : Nat) (single : Bool)
+    (fit ev : List (List Nat)) (vals : List (List (List Int))) : String :=
+  let params : List (List Nat × List Nat → Except String (Nat × Nat)) :=
+    (List.range m).map fun mi => fun tr =>
+      let f := foldOfTrain n k p tr.1
+      let c := (fit.getD f []).getD mi 0
+      if c = 0 then .ok (f, mi) else .error s!"fit:{c}"
+  let cell : Nat × Nat → List Nat × List Nat → Except String (List σ) := fun md va =>
+    -- the fold the validation targets belong to must be the fold the model was fitted on
+    let f := min (((va.2.headD 100000 - 100000) / t) / (n / k)) (k - 1)
+    if f ≠ md.1 then .error "model-glue-mismatch" else
+    let c := (ev.getD f []).getD md.2 0
+    if c = 0 then .ok (((vals.getD f []).getD md.2 []).map ofQuarter) else .error s!"eval:{c}"
+  let failing := (fit.flatten.filter (· ≠ 0)).length + (ev.flatten.filter (· ≠ 0)).length
+  let recs := (recRows n p).flatten
+  let tgts := (tgtRows n t).flatten
+  let out : Option (Except String (List (List σ)) × List Nat × List Nat) :=
+    if single then
+      (crossValidateSingleOn true true n k p recs tgts params
+        (fun md va => match cell md va with | .ok v => .ok (v.headD 0) | .error e => .error e)).map
+        fun (r, a, b) => (match r with | .ok v => .ok (v.map ([·])) | .error e => .error e, a, b)
+    else
+      (crossValidateOn true true n k p t recs tgts params cell t).map fun o => (o.result, o.finalR, o.finalT)
+  match out with
+  | none => "panic"
+  | some (res, fr, ft) =>
+    if fr ≠ recs ∨ ft ≠ tgts then "model-not-restored" else
+    match res with
+    | .error e => if failing > 1 then "err one-of-scripted" else "err " ++ e
+    | .ok rows => "ok " ++ showList2 shw rows
+
 def handleCv (toks : List String) : Option String := do
-  let k ← argNat toks "k"; let m ← argNat toks "m"; let t ← argNat toks "t"
+  let n ← argNat toks "n"; let k ← argNat toks "k"; let p ← argNat toks "p"
+  let m ← argNat toks "m"; let t ← argNat toks "t"
+  let single ← argNat toks "single"; let acc ← argNat toks "acc"
   let fit ← argNats2 toks "fit"; let ev ← argNats2 toks "ev"
   let vals ← (arg toks "vals").bind (parseList3 parseInt)
-  let folds := (fit.zip (ev.zip vals)).map fun (fr, er, vr) =>
-    (fr.map (fun c => if c = 0 then Except.ok () else Except.error s!"fit:{c}"),
-     (er.zip vr).map (fun (c, v) =>
-        if c = 0 then Except.ok (v.map fun q => Float.ofInt q / 4) else Except.error s!"eval:{c}"))
-  match crossValidate (σ := Float) k m t folds with
-  | .error e => some ("err " ++ e)
-  | .ok res => some ("ok " ++ showList2 showF64 res)
+  if !guardOk n k then some "unguarded" else
+  if fit.length ≠ k ∨ ev.length ≠ k ∨ vals.length ≠ k then none else
+  if acc = 64 then
+    some (runCv (σ := Float) (fun q => Float.ofInt q / 4) showF64 n k p t m (single = 1) fit ev vals)
+  else if acc = 32 then
+    some (runCv (σ := Float32) (fun q => Float32.ofInt q / 4) showF32 n k p t m (single = 1) fit ev vals)
+  else none
 
 def handle (toks : List String) : String :=
   let r := match toks with
     | "fold" :: rest => handleFold rest
+    | "fold_counted" :: rest => handleFoldCounted rest
     | "iter_fold" :: rest => handleIterFold rest
     | "cv" :: rest => handleCv rest
     | _ => none
